@@ -66,7 +66,7 @@ def gen_cases(ctx):
         elif special in (5, 6):
             pg = gen.large_pg(rng, cls)  # 20-110 atoms: long chains, macrocycles, big random graphs, RDKit molecules
         else:
-            pg = gen.random_pg(rng, cls, n_range=big if rng.random() < 0.3 else (2, 9), alphabet=rng.choice([gen.TINY, gen.SMALL, gen.WIDE]), p_none=p_none, allow_empty=False)
+            pg = gen.random_pg(rng, cls, n_range=big if rng.random() < 0.3 else (2, 9), alphabet=rng.choice([gen.TINY, gen.SMALL, gen.WIDE]), p_none=p_none, allow_empty=False, attrs=rng.random() < 0.25)
         m = gen.random_bijection(rng, pg)
         yield {"cls": cls, "pg": pg_to_json(pg), "variant": VARIANTS[j % len(VARIANTS)], "bseed": rng.randrange(1 << 30), "idmap": [[a, b] for a, b in m.items()]}
     # very long chains (300-2600 backbone atoms): deep recursion / n*n index arithmetic inside == and hash
